@@ -308,8 +308,11 @@ void Exec::op_foreign(Client &c) {
 		auto ins_before = [&](const std::string &key, const std::string &what) { size_t p = text.find(key); if (p == std::string::npos) return false; text.insert(p, what); return true; };
 		std::string c0 = lp->cols.empty() ? "x0" : lp->cols[0].name, r0 = lp->rows.empty() ? "r0" : lp->rows[0].name;
 		if (fmt == "MPS") switch (mal % 10) {
-		case 1: if (ins_before("RHS\n", "ROWS\n L zr1\n G zr2\nCOLUMNS\n " + c0 + " zr1 1 zr2 -2\n")) { ins_before("BOUNDS\n", "RHS\n RHS zr1 5 zr2 -7\nRANGES\n RNG zr1 2 zr2 3\n"); malwhat = "second ROWS/COLUMNS section with new rows, second RHS/RANGES using them"; } break;
-		case 2: if (ins_before("RHS\n", "COLUMNS\n zc1 obj 1 " + r0 + " 2\n zc2 " + r0 + " 3\n")) { ins_before("ENDATA", " UP BND zc1 9\n LO BND zc2 -4\n MI BND zc1\n"); malwhat = "second COLUMNS section with new columns, BOUNDS using them"; } break;
+		// the second section comes after the first RHS / BOUNDS section has been read: whatever those set up once was sized for the names known then
+		case 1: { int k = 2 + (mal / 10) * 12; std::string rows = "ROWS\n", cols = "COLUMNS\n", rhs = "RHS\n", rng = "RANGES\n"; for (int t = 0; t < k; t++) { std::string nm = strf("zr%d", t); rows += std::string(t % 2 ? " G " : " L ") + nm + "\n"; cols += " " + c0 + " " + nm + " " + std::to_string(t + 1) + "\n"; rhs += " RHS " + nm + " 12345678901234567890123/7\n"; rng += " RNG " + nm + " 98765432109876543210/3\n"; }
+			if (ins_before("BOUNDS\n", rows + cols + rhs + rng)) malwhat = strf("second ROWS/COLUMNS sections with %d new rows after the first RHS section, second RHS/RANGES using them", k); break; }
+		case 2: { int k = 2 + (mal / 10) * 12; std::string cols = "COLUMNS\n", bnd = "BOUNDS\n"; for (int t = 0; t < k; t++) { std::string nm = strf("zc%d", t); cols += " " + nm + " obj 1 " + r0 + " 2\n"; bnd += std::string(t % 3 == 0 ? " UP BND " : t % 3 == 1 ? " LO BND " : " FX BND ") + nm + " 12345678901234567890123/7\n"; }
+			if (ins_before("ENDATA", cols + bnd)) malwhat = strf("second COLUMNS section with %d new columns after the first BOUNDS section, second BOUNDS using them", k); break; }
 		case 3: if (ins_before("ENDATA", " UP BND no_such_col 3\n")) malwhat = "bound for an undeclared column"; break;
 		case 4: if (ins_before("BOUNDS\n", " RHS no_such_row 3\n")) malwhat = "rhs for an undeclared row"; break;
 		case 5: if (ins_before("RHS\n", " " + c0 + " " + r0 + " 17\n")) malwhat = "a column continued after other columns"; break;
